@@ -27,7 +27,7 @@ def bounds(tier):
     if tier == 'quick':
         return {'runs': [{'C': 3, 'rounds': [2, 2], 'modes': ['none', 'all']}],
                 'molecule_level': 'C=3, all single-round histories of <=2 letters'}
-    return {'runs': [{'C': 3, 'rounds': [3, 2], 'modes': ['none', 'all']},
+    return {'runs': [{'C': 3, 'rounds': [3, 2], 'modes': ['all']},
                      {'C': 4, 'rounds': [2, 2], 'modes': ['none', 'all']},
                      {'C': 2, 'rounds': [2, 1, 2], 'modes': ['all', 'none']}],
             'molecule_level': 'C=3, all single-round histories of <=3 letters'}
